@@ -83,6 +83,7 @@ func isQuery(info *types.Info, c *ast.CallExpr, fn *types.Func) bool {
 func Run(cfg core.Config, scope core.Scope) *core.Result {
 	res := core.NewResult("OKFLOW")
 	res.Rules = append(res.Rules,
+		"OKFLOW.loopstatus: a status assigned inside a loop is read before the same assignment overwrites it in the next iteration",
 		"OKFLOW.use: the ok/error/unconverged result of every non-query call to a LAPACK routine or mat factorization/solver reaches a branch, a field, a return or another call",
 		"OKFLOW.discard: no value-returning LAPACK routine is called as a bare statement with all results discarded",
 		"OKFLOW.cond: every error-returning Solve*/Inverse* method of mat can return Condition; a finite Condition(x) is returned exactly under x > ConditionTolerance; Condition(+Inf) only under a failed status")
@@ -237,7 +238,25 @@ func checkUse(res *core.Result, pkg *packages.Package, fd *ast.FuncDecl, used ma
 				}
 				if !reachesUse(graph(), info, p, obj, named[obj]) {
 					report(c, fn, fmt.Sprintf("assigned to %s and never read before being overwritten or going out of scope", id.Name))
-				} else if selfStatus {
+					continue
+				}
+				// OKFLOW.loopstatus: in a loop, the status of one iteration
+				// must be read before the same statement overwrites it in
+				// the next iteration (ok = f() per panel keeps only the last
+				// panel's status).
+				if inLoop(par, p) {
+					res.Obligations++
+					res.Count("status_assignments_in_loops", 1)
+					if overwritesItself(graph(), info, p, obj) {
+						res.Add(core.Finding{
+							Rule: "OKFLOW.loopstatus",
+							Key:  fmt.Sprintf("OKFLOW.loopstatus|%s|%s", name, fn.Name()),
+							Pos:  core.Pos(c.Pos()), Func: name,
+							Msg: fmt.Sprintf("the status of %s is assigned to %s inside a loop and can be overwritten by the next iteration without having been read: only the last iteration's status survives", fn.Name(), id.Name),
+						})
+					}
+				}
+				if selfStatus {
 					res.Obligations++
 					res.Count("status_propagation_sites", 1)
 					if at := constTrueReturn(graph(), info, p, obj, named[obj]); at != nil {
@@ -256,6 +275,92 @@ func checkUse(res *core.Result, pkg *packages.Package, fd *ast.FuncDecl, used ma
 		}
 		return true
 	})
+}
+
+func inLoop(par map[ast.Node]ast.Node, n ast.Node) bool {
+	for p := par[n]; p != nil; p = par[p] {
+		switch p.(type) {
+		case *ast.ForStmt, *ast.RangeStmt:
+			return true
+		case *ast.FuncLit:
+			return false
+		}
+	}
+	return false
+}
+
+// overwritesItself reports whether the assignment def can be reached again
+// from itself along a path on which obj is not read.
+func overwritesItself(g *cfgx.Graph, info *types.Info, def ast.Node, obj types.Object) bool {
+	loc, ok := g.Where[def]
+	if !ok {
+		return false
+	}
+	readsObj := func(n ast.Node) (read bool) {
+		ast.Inspect(n, func(x ast.Node) bool {
+			switch s := x.(type) {
+			case *ast.AssignStmt:
+				for _, l := range s.Lhs {
+					if id, ok := l.(*ast.Ident); ok && core.ObjOf(info, id) == obj {
+						if s.Tok != token.ASSIGN && s.Tok != token.DEFINE {
+							read = true
+						}
+					} else if r, _ := readsIn(info, l, obj); r {
+						read = true
+					}
+				}
+				for _, r := range s.Rhs {
+					if rr, _ := readsIn(info, r, obj); rr {
+						read = true
+					}
+				}
+				return false
+			case *ast.Ident:
+				if core.ObjOf(info, s) == obj {
+					read = true
+				}
+			}
+			return true
+		})
+		return
+	}
+	seen := map[int32]bool{}
+	var walk func(b *cfg.Block, from int) bool
+	walk = func(b *cfg.Block, from int) bool {
+		for i := from; i < len(b.Nodes); i++ {
+			if b.Index == loc.Block && i == loc.Index {
+				return true // back at the assignment, unread
+			}
+			if readsObj(b.Nodes[i]) {
+				return false
+			}
+		}
+		for _, s := range b.Succs {
+			if s.Index == loc.Block {
+				// re-entering the defining block from its start
+				reached := true
+				for i := 0; i < loc.Index; i++ {
+					if readsObj(s.Nodes[i]) {
+						reached = false
+						break
+					}
+				}
+				if reached {
+					return true
+				}
+				continue
+			}
+			if seen[s.Index] {
+				continue
+			}
+			seen[s.Index] = true
+			if walk(s, 0) {
+				return true
+			}
+		}
+		return false
+	}
+	return walk(g.Blocks[loc.Block], loc.Index+1)
 }
 
 // reachesUse reports whether some path from the definition reaches a read
